@@ -1,5 +1,6 @@
 import Moclo.Props.C01
 import Moclo.Tables.Kits
+import Moclo.Proofs.YtkPair
 /-!
 # C11 — products of one level are valid modules of the next level
 
@@ -19,8 +20,12 @@ structure of the next level, `C01.module_canonical`.
   `C01.module_canonical` for the next level's geometry applies: if the product carries the next-level structure
   exactly once and passes the screen (no further next-level site), the next-level class accepts it at every
   rotation and its target contains every module target in chain order.
-The YTK entry vector / YTK product pair has another shape (the next level's sites sit inside the *module's*
-target): decided by the oracle and the correspondence check only.
+The YTK entry vector / YTK product pair has another shape — the next level's sites sit inside the *module's*
+target: `ytk_structures` (kernel-checked on the regenerated table: the live `YTKProduct.structure()` is the
+closed form `ytkProductPat`, the live `YTKEntry.structure()` the generic BsaI module structure),
+`ytk_product_layout` (what any fit of the product structure reads) and `ytk_pair` (the product is a
+well-formed BsaI module whose target contains the whole template; accepted at every rotation under the same
+"exactly once, screen passes" hypotheses, for templates of at least two letters).
 -/
 namespace Moclo.C11
 open Moclo
@@ -134,5 +139,45 @@ theorem product_shape {g' : Geom} {k : Nat} {OV OV' : Word} (O1 body O3 : Word)
   rcases hov with ⟨rfl, rfl, hk⟩ | ⟨h1, h2⟩
   · exact ⟨O1, body, O3, by simp, by omega, by omega, [], [], by simp⟩
   · exact ⟨OV, O1 ++ body ++ O3, OV', by simp [List.append_assoc], h1, h2, OV, O3, by simp [List.append_assoc]⟩
+
+/-- the YTK pair as the classes are now (regenerated table): the product's structure is the closed form
+`ytkProductPat`, the next-level class (`YTKEntry`) is matched with the generic module structure of BsaI, and
+the entry vector's cutter is the product's (BsmBI) -/
+theorem ytk_structures :
+    (match Generated.kits[Generated.ytkPair.1]?, Generated.kits[Generated.ytkPair.2.1]?,
+        Generated.kits[Generated.ytkPair.2.2]? with
+     | some v, some prod, some nxt =>
+        (prod.pat == ytkProductPat) && (nxt.pat == moduleStructure bsaI) && (nxt.site == bsaI.site) &&
+        (nxt.off == bsaI.off) && (nxt.k == bsaI.k) && (v.site == prod.site) && (v.k == 4) && (prod.k == 4)
+     | _, _, _ => false) = true := by decide +kernel
+
+/-- what any fit of `YTKProduct.structure()` reads -/
+theorem ytk_product_layout {text : Word} {ms : List Nat} {e : Nat} (h : Run ytkProductPat text 0 ms e) :
+    ∃ b2 n12 S x o5 t o3 y GA,
+      ms = [7, 11, 11, b2, b2, b2 + 4] ∧ b2 + 4 ≤ text.length ∧
+      slice text 7 b2 = n12 ++ S ++ x ++ o5 ++ t ++ o3 ++ y ++ GA ∧
+      n12.length = 2 ∧ S.length = 6 ∧ matchesAt [.G, .G, .T, .C, .T, .C] S ∧
+      x.length = 1 ∧ o5.length = 4 ∧ o3.length = 4 ∧ y.length = 1 ∧ GA.length = 2 ∧ matchesAt [.G, .A] GA ∧
+      matchesAt [.G, .A, .C, .C] (slice text b2 (b2 + 4)) ∧ C01.Plain (x ++ o5 ++ t ++ o3 ++ y) :=
+  Moclo.ytk_product_layout h
+
+/-- **the YTK pair**: module fragment `text[7, b2)` (upstream overhang and target of the product), then the
+vector's fragment `upv · B` whose upstream overhang has the key of the product's downstream overhang: the
+product is a well-formed BsaI module, accepted by the next-level class at every rotation with the template
+inside its target -/
+theorem ytk_pair {text : Word} {ms : List Nat} {e : Nat} (h : Run ytkProductPat text 0 ms e) (upv B : Word)
+    (hup : NtEq upv (slice text (ms.getD 3 0) (ms.getD 3 0 + 4))) :
+    ∃ n12 S x o5 t o3 y S',
+      slice text 7 (ms.getD 3 0) ++ upv ++ B = rotr (S ++ x ++ o5 ++ t ++ o3 ++ y ++ S' ++ (B ++ n12)) 2 ∧
+      matchesAt bsaI.site S ∧ S.length = bsaI.site.length ∧
+      matchesAt (rcNt bsaI.site) S' ∧ S'.length = bsaI.site.length ∧
+      x.length = bsaI.off ∧ y.length = bsaI.off ∧ o5.length = bsaI.k ∧ o3.length = bsaI.k ∧
+      C01.Plain (x ++ o5 ++ t ++ o3 ++ y) ∧
+      (2 ≤ t.length →
+        UniqueFit (moduleStructure bsaI) (S ++ x ++ o5 ++ t ++ o3 ++ y ++ S' ++ (B ++ n12)) →
+        validCuts bsaI (S ++ x ++ o5 ++ t ++ o3 ++ y ++ S') ≤ 2 →
+        ∀ r, C02.report { kind := .module, pat := moduleStructure bsaI, geom := bsaI }
+          (rotr (S ++ x ++ o5 ++ t ++ o3 ++ y ++ S' ++ (B ++ n12)) r) = .ok (o5, o3, o5 ++ t, o5 ++ t)) :=
+  Moclo.ytk_pair h upv B hup
 
 end Moclo.C11
